@@ -19,6 +19,9 @@
 //! Oracle: `spec.rs` is the table of built-ins / arguments / alphabets, `oracle.rs` the contract
 //! predicates written from the documentation.
 
+#[path = "../c16/refs.rs"]
+#[allow(dead_code)]
+mod c16refs;
 mod oracle;
 mod spec;
 
